@@ -61,11 +61,11 @@ CHECKS = {
  "C01": ("mc-graph", "model_checking",
          "explicit-state BFS over the real CompositionGraph (E1) on three libraries; every reached state encoded under 4 option vectors and re-validated by the reference validator",
          "BFS (depth 4 quick / 5 thorough, up to 5 live nodes) over LibT (WIT-derived records/variants/enums/flags/alias chains/resources with constructor, method, static and borrow, `use` chains and renames at versioned interface names), LibHand (core module, nested component, nested instance, type, resource and value imports/exports) and LibFI (functions, instances, type definitions). Every new state is encoded with dependencies embedded and imported, with and without validation: Ok bytes must pass wasmparser's validator (and the E2 wiring/interface comparison), the two validate settings must agree, an error must be a documented one the model admits; ValidationFailure, panics and process aborts are never admissible.",
-         "For WIT-/WAT-derived packages item types are opaque text from the reference validator: where the model cannot decide argument compatibility or merge conflicts it accepts either outcome; validity is decided by wasmparser. Type shapes are those of the libraries; 8 known findings are listed in known-findings.json.",
+         "For WIT-/WAT-derived packages item types are opaque text from the reference validator: where the model cannot decide argument compatibility or merge conflicts it accepts either outcome; validity is decided by wasmparser. Type shapes are those of the libraries; the known findings (13 fingerprints, 8 root causes) are listed in known-findings.json.",
          "DESIGN.md §5 C01, §8"),
  "C02": ("mc-graph", "translation_validation",
          "explicit-state BFS over constructive graph operations (E1) + independent section-level re-reading of every encoding (E2), provenance equality",
-         "Every composition reachable by instantiate/alias/import/set-argument/export/name within the depth from 6 seed states over a library built for ambiguity (same-typed slots and candidates, one package instantiated several times, diamonds, aliases of aliases of nested instances, multi-name exports) is encoded in both dependency modes; each encoding is re-read by an independent walker that rebuilds the index spaces with provenance, and the multiset of instantiations with per-name argument provenance, export bindings, alias sources, embedded component hashes (each once, byte-identical) and name-section entries must equal the graph's denotation read through public queries.",
+         "Every composition reachable by instantiate/alias/import/set-argument/export/name within depth 3 (quick) / 4 (thorough) from 8 seed states over a library built for ambiguity (same-typed slots and candidates, one package name at two versions, one package instantiated several times, diamonds, aliases of aliases of nested instances, multi-name exports, a package exporting a resource and a record type aliased from two of its instantiations) is encoded in both dependency modes; each encoding is re-read by an independent walker that rebuilds the index spaces with provenance, and the multiset of instantiations with per-name argument provenance, export bindings, alias sources, embedded component hashes (each once, byte-identical) and name-section entries must equal the graph's denotation read through public queries.",
          "Trusts the E2 reader (harness/mc-core/src/e2.rs, over wasmparser payloads) and wasmparser's validator for types. Implicit imports are identified up to their semver track here (C03 pins the name).",
          "DESIGN.md §4 E2, §5 C02, A.2"),
  "C03": ("mc-graph", "model_checking",
